@@ -5,7 +5,7 @@ import itertools
 
 LEVEL = "exploration"
 
-OVERRIDES = [None, {"a": 1}, {"a": {"b": 1}}, {"a": {"b": 2, "a": 1}}, {"b": {"a": {"b": 3}}}, {"a": {}}, {"a": [1]}, {}, {"a": {"b": {"a": 7}}}]
+OVERRIDES = [None, {"a": 1}, {"a": {"b": 1}}, {"a": {"b": None, "a": 0}}, {"a": {"b": 2, "a": 1}}, {"b": {"a": {"b": 3}}}, {"a": {}}, {"a": [1]}, {}, {"a": {"b": {"a": 7}}}]
 CONFIG_CTX = [None, {"a": 1}, {"a": {"b": 0, "a": {"b": 9}}}]
 RUN_CTX = [{}, {"a": {"a": 5}}, {"b": 1}]
 PATHS = [".".join(p) for n in (1, 2, 3) for p in itertools.product("ab", repeat=n)] + ["c", "a.c", "a.b.a.b", "a.b.c.d"]
@@ -47,7 +47,12 @@ def tasks():
     def probe(v=get_context("a.b", "DEF"), w=get_context("a", "DEF")):
         return [v, w]
 
+    def sib(overrides):
+        # sibling calls from ONE parent job that differ only in their context overrides
+        return [(REG["probe"] if o is None else REG["probe"].update_context(o))() for o in overrides]
+
     REG = {}
+    REG["sib"] = task(name="sib", namespace="c26")(sib)
     REG["lvl"] = task(name="lvl", namespace="c26")(lvl)
     REG["probe"] = task(name="probe", namespace="c26")(probe)
     return REG
@@ -116,6 +121,37 @@ def reuse_leg(ctx):
     return n
 
 
+def siblings_leg(ctx):
+    """Sibling calls of one task from one parent job, each with its own override: every sibling reads ITS effective context."""
+    from engine import evloop
+    from engine.progs import typed_key
+
+    REG = tasks()
+    n = 0
+    ovs = OVERRIDES[: ctx.pick(7, len(OVERRIDES))]
+    for cfg in CONFIG_CTX[:2]:
+        for parent_o in (None, {"a": {"b": 4}}):
+            for trio in itertools.product(ovs, repeat=ctx.pick(2, 3)):
+                env = evloop.Env([], context=cfg)
+                try:
+                    t = REG["sib"] if parent_o is None else REG["sib"].update_context(parent_o)
+                    out = env.run(t(list(trio)))
+                finally:
+                    env.close()
+                n += 1
+                base = ref_merge([cfg or {}, parent_o or {}])
+                want = []
+                for o in trio:
+                    c = base if o is None else ref_merge([base, o])
+                    want.append([ref_get(c, "a.b", "DEF"), ref_get(c, "a", "DEF")])
+                if out[0] != "ok" or typed_key(out[1]) != typed_key(want):
+                    k = next((i for i, (g, w) in enumerate(zip(out[1], want)) if typed_key(g) != typed_key(w)), 0) if out[0] == "ok" else 0
+                    ctx.violation(f"sibling-contexts-mixed:sibling#{k}", {"config_context": cfg, "parent_override": parent_o, "sibling_overrides": list(trio)},
+                                  f"config {cfg}, parent override {parent_o}, sibling overrides {list(trio)}: siblings read "
+                                  f"{out[1] if out[0] == 'ok' else out}, expected {want}")
+    return n
+
+
 def run(ctx):
     from engine import seams
     from engine.common import check_harness_errors
@@ -130,11 +166,12 @@ def run(ctx):
     ctx.add_results(res)
     shapes = set().union(*[r["shapes"] for r in res])
     n_reuse = reuse_leg(ctx)
+    n_sib = siblings_leg(ctx)
     return {"coverage": {
-        "evaluations": sum(r["n"] for r in res) + n_reuse, "reused_scheduler_runs": n_reuse, "distinct_nontrivial": len(shapes), "paths_per_run": len(PATHS), "exhaustive": True,
-        "rule": f"every chain of 3 nested jobs with update_context overrides from {len(ovs)} dicts (nested, empty, list-valued, absent) x configured "
+        "evaluations": sum(r["n"] for r in res) + n_reuse + n_sib, "reused_scheduler_runs": n_reuse, "sibling_runs": n_sib, "distinct_nontrivial": len(shapes), "paths_per_run": len(PATHS), "exhaustive": True,
+        "rule": f"every chain of 3 nested jobs with update_context overrides from {len(ovs)} dicts (nested, empty, list-valued, null- and zero-valued, absent) x configured "
         "context x run(context=) on the real scheduler; at the leaf every dotted path of <=3 segments over {a,b} plus missing / too-deep paths is "
-        "read through get_context in the task body and through expression-valued default arguments; oracle: reference deep merge + path lookup; "
+        "read through get_context in the task body and through expression-valued default arguments; oracle: reference deep merge + path lookup; sibling leg: every pair (thorough: triple) of overrides given to sibling calls of one task from one parent job, each sibling reads its own effective context; "
         "distinct = distinct effective leaf contexts",
         "samples": [{"overrides": list(c[0]), "config": c[1], "run": c[2]} for c in combos[:2]],
     }, "assumptions": ["default completion schedule (context handling does not depend on timing)"]}
